@@ -73,4 +73,4 @@ PROPS["C01"]["freerun"] = {"rounds_quick": 400, "rounds_thorough": 20000, "race"
 # properties whose clauses they carry; the tie is this suite (servers built from raw values through either
 # constructor, handshake bytes compared)
 ALSO = {"server": []}
-ALSO_PROPS_BY_PID = {"C18": ["Setup"], "C13": ["Setup"], "C01": ["Setup"], "C14": ["Setup"]}
+ALSO_PROPS_BY_PID = {"C18": ["Setup", "ClientSetup"], "C13": ["Setup"], "C01": ["Setup"], "C14": ["Setup", "ClientSetup"]}
